@@ -247,4 +247,13 @@ func runC07(cw *caseWriter, tier string, seed uint64) {
 	}
 	cw.stat("c07_random_cases", cnt)
 	c07nGen(cw, tier, r)
+	// "never counted in commitment": the commitment tables (configurations x suffrage x match reports, each followed by setConfiguration calls)
+	rc := &rng{s: seed*29 + 3}
+	if tier == "quick" {
+		c05tables(cw, 3, []uint64{0, 1, 2, 3}, 3, 1, rc)
+		c05random(cw, rc, 1500)
+	} else {
+		c05tables(cw, 4, []uint64{0, 1, 2, 3}, 3, 1, rc)
+		c05random(cw, rc, 20000)
+	}
 }
